@@ -475,6 +475,15 @@ func (e *Engine) configWriteObligations() {
 				x = se.X
 			}
 		}
+		// isCtxConfig: x is `<context>.Config`
+		isCtxConfig := func(x ast.Expr) bool {
+			se, ok := x.(*ast.SelectorExpr)
+			if !ok || se.Sel.Name != "Config" {
+				return false
+			}
+			t := info.TypeOf(se.X)
+			return t != nil && strings.HasSuffix(strings.TrimPrefix(e.typeStr(t), "*"), "Context") && !strings.Contains(e.typeStr(t), "Parser")
+		}
 		ast.Inspect(fi.Decl.Body, func(n ast.Node) bool {
 			switch u := n.(type) {
 			case *ast.AssignStmt:
@@ -483,9 +492,72 @@ func (e *Engine) configWriteObligations() {
 				}
 			case *ast.IncDecStmt:
 				check(u.X)
+			case *ast.UnaryExpr:
+				// &ctx.Config handed to somebody: the configuration can be written behind the frame's back
+				if u.Op == token.AND && isCtxConfig(u.X) && fi.Key != "(*Context).SetConfig" {
+					k++
+					e.frameObl(fmt.Sprintf("frame:%s/config-write#%d", fi.Key, k), []string{"C16"}, false, e.posStr(u.Pos()),
+						"no pointer to a Context's Config is taken in "+fi.Key, "address of "+e.exprStr(u.X)+" is taken")
+				}
+			case *ast.CallExpr:
+				// ctx.Config.m(...) with a pointer receiver that (transitively) writes configuration fields
+				if se, ok := u.Fun.(*ast.SelectorExpr); ok && isCtxConfig(se.X) {
+					if sel := info.Selections[se]; sel != nil {
+						if fn, ok := sel.Obj().(*types.Func); ok {
+							if sig, ok := fn.Type().(*types.Signature); ok && sig.Recv() != nil {
+								if _, ptr := sig.Recv().Type().(*types.Pointer); ptr {
+									writes := false
+									if tr := e.effects.Trans[fn]; tr != nil {
+										for key := range tr.Writes {
+											if strings.HasPrefix(key, "RollConfig.") {
+												writes = true
+											}
+										}
+									}
+									if writes {
+										k++
+										e.frameObl(fmt.Sprintf("frame:%s/config-write#%d", fi.Key, k), []string{"C16"}, false, e.posStr(u.Pos()),
+											"no configuration-writing method is called on a Context's Config in "+fi.Key, "call of "+fn.Name()+" on "+e.exprStr(se.X)+" writes configuration fields")
+									}
+								}
+							}
+						}
+					}
+				}
 			}
 			return true
 		})
+	}
+	// Parse hands its input text to the parser unmodified (C03: Matched + RestInput is the caller's text; C13: literal
+	// text is reproduced byte for byte)
+	if fi := e.P.Funcs["(*Context).Parse"]; fi != nil && fi.Decl.Type.Params != nil && len(fi.Decl.Type.Params.List) == 1 {
+		pname := fi.Decl.Type.Params.List[0].Names[0].Name
+		reassigned := false
+		passed := false
+		ast.Inspect(fi.Decl.Body, func(n ast.Node) bool {
+			switch u := n.(type) {
+			case *ast.AssignStmt:
+				for _, l := range u.Lhs {
+					if id, ok := l.(*ast.Ident); ok && id.Name == pname {
+						reassigned = true
+					}
+				}
+			case *ast.CallExpr:
+				if id, ok := u.Fun.(*ast.Ident); ok && id.Name == "newParser" && len(u.Args) >= 2 {
+					if conv, ok := u.Args[1].(*ast.CallExpr); ok && len(conv.Args) == 1 {
+						if a, ok := conv.Args[0].(*ast.Ident); ok && a.Name == pname {
+							if at, ok := conv.Fun.(*ast.ArrayType); ok && at.Len == nil {
+								passed = true
+							}
+						}
+					}
+				}
+			}
+			return true
+		})
+		e.frameObl("frame:(*Context).Parse/input-unmodified", []string{"C03", "C13"}, passed && !reassigned, e.posStr(fi.Decl.Pos()),
+			"Parse gives the parser exactly the bytes of its argument (the parameter is never reassigned and is passed as []byte(value))",
+			fmt.Sprintf("parameter reassigned: %v; passed as []byte(%s) to newParser: %v", reassigned, pname, passed))
 	}
 	// the parser works on its own copy: Parse copies ctx.Config into ParserData.Config by value
 	if fi := e.P.Funcs["(*Context).Parse"]; fi != nil {
